@@ -121,6 +121,11 @@ class Term:
         # Now copy the content of t onto self
         self.__dict__.update(t.__dict__)
 
+        # The identifier must be that of the new object: t may be discarded
+        # (always the case for a freshly parsed term), after which another
+        # term can be allocated at the same address.
+        self._id = id(self)
+
     def is_svar(self) -> bool:
         return self.ty == Term.SVAR
 
